@@ -142,3 +142,46 @@ def c16c(F, R):
                 R.bad("duplicate-label-token", "DuplicateLabel is not built from the label whose insertion failed", loc(n))
     if not dd:
         R.bad("duplicate-label-token|missing", "UNEXTRACTABLE: construction of DuplicateLabel not found", f["sp"])
+
+
+@rule("C18", "C18.k.analysis-failures-reach-the-list", floor=2)
+@rule("C16", "C16.e.analysis-failures-reach-the-list", floor=2)
+def c16e(F, R):
+    """when building the graph or running the lints fails, the error is converted and appended to the list that is printed - in the CLI's pipeline and in the library entry point alike: the `Err(e)` arm of the call pushes `DiagnosticItem::from(e)`; an arm that drops the error leaves the user with no lints and no explanation"""
+    sites = []
+    for q in ("rva::main",):
+        if q in F.fns:
+            sites.append((q, F.fns[q]))
+    for q, g in F.fns.items():
+        if q.endswith("RVParser::<T>::run") and "hir" in g:
+            sites.append((q, g))
+    n = 0
+    for q, g in sites:
+        for m in find_matches(g["hir"]["value"]):
+            if m.get("src") in ("TryDesugar", "ForLoopDesugar"):
+                continue
+            names = [short(callee_of(c) or "") for c in walk(m["scrut"], pats=False) if c.get("k") in ("Call", "MethodCall")]
+            lets = {}
+            sc = peel(m["scrut"])
+            if sc.get("k") == "Path" and sc.get("res_kind") == "Local":
+                for st in walk(g["hir"]["value"], pats=False):
+                    if st.get("k") == "Let" and st["pat"].get("k") == "PBinding" and st["pat"]["name"] == sc["res"] and st.get("init") is not None:
+                        names += [short(callee_of(c) or "") for c in walk(st["init"], pats=False) if c.get("k") in ("Call", "MethodCall")]
+            if not ({"gen_full_cfg", "run"} & set(names)) or not any("Manager" in (callee_of(c) or "") for c in walk(g["hir"]["value"], pats=False) if c.get("k") in ("Call", "MethodCall")):
+                continue
+            if not any(nm in ("gen_full_cfg",) or nm == "run" for nm in names):
+                continue
+            for a in m["arms"]:
+                if not any(v and v.endswith("Result::Err") for k_, v in pat_variants(a["pat"]) if k_ == "path"):
+                    continue
+                n += 1
+                bs = {b["name"] for b in walk(a["pat"]) if b.get("k") == "PBinding"}
+                pushes = [p_ for p_ in walk(a["body"], pats=False) if p_.get("k") == "MethodCall" and p_["name"] == "push" and "DiagnosticItem" in (p_["recv"].get("ty", "") + p_["recv"].get("aty", "") + ekey(p_["args"][0]))]
+                conv = [p_ for p_ in pushes if any(x.get("k") == "Path" and x.get("res") in bs for x in walk(p_["args"][0], pats=False))]
+                key = f"{short(q.split('::{closure')[0]) if 'main' not in q else 'rva::main'}|Err"
+                if conv:
+                    R.ok(key, detail="Err(e) => diagnostics.push(DiagnosticItem::from(e))", where=loc(a))
+                else:
+                    R.bad(key, f"in `{q}` the `Err(..)` arm of the analysis call does not append the error to the diagnostics: a program that cannot be analysed (undefined label, duplicate label, function without return) produces no output at all", loc(a))
+    if n < 2:
+        R.bad("coverage", f"found {n} `Err` arm(s) of Manager::gen_full_cfg / Manager::run in the CLI and the library entry point; expected both", None)
